@@ -455,6 +455,23 @@ def slice_data(graph, t):
         g['pulses'] = ps
     return g
 
+def size_at_has_linear_branch():
+    """does DemesUtil._size_at compare its size_function with "linear"?"""
+    try:
+        fn = _func(ast.parse(open(UTIL_PY).read()), '_size_at')
+    except (Refuse, SyntaxError, OSError):
+        return False
+    return any(isinstance(n, ast.Compare) and any(isinstance(c, ast.Constant) and c.value == 'linear' for c in n.comparators)
+               for n in ast.walk(fn))
+
+def yaml_of(graph):
+    """YAML text of a graph given as Builder data (for the replay files)"""
+    try:
+        import demes
+        return demes.dumps(demes.Builder.fromdict(json.loads(json.dumps(graph))).resolve())
+    except Exception as e:
+        return 'could not serialise the graph: %r' % (e,)
+
 def frozen_size_is_literal():
     """does _augment_with_ancient_samples give the frozen branch a literal size?  (None: shape not recognised)"""
     tree = ast.parse(open(DEMES_PY).read())
@@ -516,6 +533,18 @@ def forced_cases():
                 'tag': 'forced-all-ancient-same-deme-twice', 'maxd': 3})
     return out
 
+def family_cases(ctx):
+    """the systematic families of c16_gen (own random stream: the random cases above do not move when a family changes)"""
+    import random
+    out = []
+    for rep in range(ctx.pick(1, 4)):
+        rng = random.Random('C16-families-%d-%d' % (ctx.seed, rep))
+        for c in G.slice_family(rng) + G.boundary_family(rng):
+            c['ns'] = [rng.randint(2, 3) if c['maxd'] <= 3 else 2 for _ in c['sampled']]
+            c['pts'] = PTS[c['maxd']]
+            out.append(c)
+    return out
+
 YAMLS = [('bottleneck.yaml', ['our_population'], [4], 12), ('browning_america.yaml', ['AFR', 'EAS', 'EUR', 'ADMIX'], [2, 1, 2, 1], 6),
          ('gutenkunst_ooa.yaml', ['YRI', 'CEU', 'CHB'], [2, 3, 2], 9), ('linear_size_function_example.yaml', ['pop_1', 'pop_2'], [3, 2], 12),
          ('offshoots.yaml', ['ancestral', 'offshoot1', 'offshoot2'], [2, 2, 2], 9), ('two_epoch.yaml', ['deme0'], [4], 14),
@@ -541,6 +570,7 @@ def gen_log_cases(ctx):
         cases.append({'graph': graph, 'sampled': sampled, 'ns': ns, 'times': times, 'Ne': rng.choice([None, None, 2.0, 3.0, 1.5]),
                       'pts': PTS[maxd], 'tag': 'random', 'maxd': maxd})
     cases += forced_cases()
+    cases += family_cases(ctx)
     for f, sampled, ns, pts in YAMLS:
         cases.append({'yaml': os.path.join(TESTS_DEMES, f), 'sampled': sampled, 'ns': ns, 'times': None, 'Ne': None, 'pts': pts,
                       'tag': 'yaml:' + f, 'maxd': len(sampled)})
@@ -555,7 +585,7 @@ def case_class(c, r):
     """properties of the sampling spec: all_ancient (slice time t>0), linear epoch cut by the slice, renamed deme with
     descendants, ancient samples present"""
     g = r.get('orig')
-    info = {'ancient': False, 'tmin': 0.0, 'slice_linear': False, 'rename_desc': False}
+    info = {'ancient': False, 'tmin': 0.0, 'slice_linear': False, 'rename_desc': False, 'slice_class': None, 'slice_cut': []}
     if g is None:
         return info
     ends = {d['name']: d['end_time'] for d in g['demes']}
@@ -564,10 +594,24 @@ def case_class(c, r):
     t = min(times)
     info['tmin'] = t
     if t > 0:
+        # input class of the slice (only used to group further failing inputs of one class under the first one)
+        cut = [e for d in g['demes'] if d['start_time'] > t for e in d['epochs'] if e['start_time'] > t >= e['end_time']]
+        grow = [e for e in cut if e['size_function'] != 'constant']
+        info['slice_class'] = ('slice cuts a non-constant epoch that ends before the present' if any(e['end_time'] > 0 for e in grow) else
+                               'slice cuts a non-constant epoch that runs to the present' if grow else 'slice cuts constant epochs only')
+        # the regime the systematic families are there for: (size function, slice inside / at the end, what follows)
+        for d in g['demes']:
+            if d['start_time'] > t:
+                for k, e in enumerate(d['epochs']):
+                    if e['start_time'] > t >= e['end_time'] > 0 and e['size_function'] != 'constant':
+                        follows = ('epoch' if k + 1 < len(d['epochs']) else
+                                   'split' if any(d['name'] in x['ancestors'] and x['start_time'] == e['end_time'] for x in g['demes']) else 'extinct')
+                        info['slice_cut'].append((e['size_function'], 'at its end' if t == e['end_time'] else 'inside', follows))
+                        break
         for d in g['demes']:
             for e in d['epochs']:
-                if e['size_function'] == 'linear' and e['start_time'] > t >= e['end_time']:
-                    info['slice_linear'] = True
+                if e['size_function'] == 'linear' and e['start_time'] > t >= e['end_time'] and not _has_linear():
+                    info['slice_linear'] = True      # input class of a known deviation ONLY while _size_at lacks the linear branch
         first = {}
         for s, tt in zip(c['sampled'], times):
             if tt == t:
@@ -579,6 +623,23 @@ def case_class(c, r):
             if tt == t and any(s2 == s and t2 > t for s2, t2 in zip(c['sampled'], times)):
                 info['rename_desc'] = True
     return info
+
+REGIME = set()          # which parts of the all-ancient / cut-growth-epoch regime the run has exercised (fail closed)
+
+def resolved_size_at(orig, name, u):
+    """size of a deme of a resolved graph at time u (first epoch with start > u >= end; closed formulas)"""
+    for d in orig['demes']:
+        if d['name'] == name:
+            for e in d['epochs']:
+                if e['start_time'] > u >= e['end_time']:
+                    return G.growth_val(e['size_function'], e['start_size'], e['end_size'], e['start_time'], e['end_time'], u)
+    return None
+
+_HAS_LINEAR = []
+def _has_linear():
+    if not _HAS_LINEAR:
+        _HAS_LINEAR.append(size_at_has_linear_branch())
+    return _HAS_LINEAR[0]
 
 def frozen_names(c, r):
     g = r['orig']
@@ -692,6 +753,15 @@ def load_yaml_graphs(cases):
         if c.get('yaml') and 'graph' not in c:
             c['graph'] = demes.load(c['yaml']).asdict()
 
+import time as _time
+_T0 = [_time.time()]
+def lap(ctx, what):
+    now = _time.time()
+    ctx.notes.append('wall %s: %.1fs' % (what, now - _T0[0]))
+    if os.environ.get('C16_TIMING'):
+        print('C16 timing %s: %.1fs' % (what, now - _T0[0]), flush=True)
+    _T0[0] = now
+
 def impl_chunks(mode, cases, size=40, timeout=1500):
     out = []
     for k in range(0, len(cases), size):
@@ -756,6 +826,11 @@ def numeric_jobs(ctx, c, r, info):
         jobs.append(('ancient-as-explicit-frozen-branch', j, None, key))
     return jobs
 
+def error_class(msg):
+    """an error message without the names and numbers of the particular input"""
+    import re
+    return re.sub(r'[0-9]+(\.[0-9]+)?', '#', re.sub(r"(deme|demes|population) ['\"]?[A-Za-z0-9_]+['\"]?", r'\1 _', msg))[:80]
+
 def dedup_violations(ctx):
     """one violation per key (the first, i.e. smallest, input); further inputs of the same class are only counted"""
     orig = ctx.violation
@@ -767,6 +842,8 @@ def dedup_violations(ctx):
                 ctx.count('further inputs for ' + key)
                 return
             seen[key] = 1
+        if isinstance(data, dict) and isinstance(data.get('case'), dict) and 'graph' in data['case'] and not data.get('graph_yaml'):
+            data = dict(data, graph_yaml=yaml_of(data['case']['graph']))        # the failing graph as YAML text
         orig(what + (' [key=%s]' % key if key else ''), data=data, key=key, no_input=no_input, broken=broken)
     ctx.violation = violation
 
@@ -777,6 +854,13 @@ def run(ctx):
                 'with own time spans; pulses with 1-3 sources; <= 2..5 simultaneous demes incl. frozen branches), random sampled '
                 'subset in random order, ancient samples (also all-ancient), generations or years, Ne given or not; plus fixed graphs '
                 '(ancient sample as last population for every arity, slice through a linear epoch, all-ancient with descendants), '
+                'the systematic slice family (every sample ancient x {exponential, linear} epoch that ends before the present x slice '
+                'inside / exactly at its end x followed by an epoch / extinction / a split x 1-3 demes alive, each with a hand-written '
+                'native program) and the boundary family (slice or sample time equal to an epoch boundary, a deme start / end, a pulse '
+                'time, a migration boundary; migration intervals starting, ending, inside, across and after the slice time; growth epochs '
+                'of non-sampled ancestors through the slice time; frozen branches created at such times); DemesUtil.slice on its own '
+                'for every graph at its own slice time and at times chosen per class (inside / at the end of growth epochs, epoch '
+                'boundaries, pulse and migration times, deme starts), '
                 'hand-written native models and the YAML files of tests/demes; numeric variants (units, rescale, order, explicit '
                 'frozen branches) of every case; export cases = random native programs of 1-5 populations; distinct = distinct '
                 '(graph, sampling spec) / program; non-trivial = at least one integration with >= 2 populations or an event')
@@ -785,6 +869,8 @@ def run(ctx):
                         'exp/ln to 2^-100 on the Q side); size functions are compared by value at t = 0, T/4, T/2, 3T/4, T',
                         'numeric invariances at 1e-9 and the export round trip at 1e-8 relative to the largest spectrum entry, one grid size, '
                         'default timescale_factor: both sides execute the same program up to rounding of T, so the time steps coincide',
+                        'DemesUtil.slice: the resolved sliced graph is compared number by number with the model at 1e-12, its Deme.size_at and '
+                        'migration rates at probe times with those of the input graph at 1e-12 (the reference is the `demes` package itself)',
                         'where the current source deviates in a known input class (linear epoch cut by DemesUtil.slice, renamed deme with '
                         'descendants) the model has the documented behaviour and the deviation is reported under its own key']
     ctx.trusted += ['Section variables / oracle: demes resolution of the augmented graph and its event list are observed at run time '
@@ -812,14 +898,16 @@ def run(ctx):
     except (Refuse, SyntaxError, OSError) as e:
         ctx.obligation('translate _augment_with_ancient_samples (size of the frozen branch)', False, 'translator', str(e))
 
-    do_log = do_export = True
+    do_log = do_export = do_slice = True
     cases = None
     progs = None
     if ctx.replay:
         rp = json.load(open(ctx.replay))
         inp = rp.get('input') or {}
         if inp.get('kind') == 'export' and 'case' in inp:
-            progs = [dict(inp['case'], id=0)]; do_log = False
+            progs = [dict(inp['case'], id=0)]; do_log = do_slice = False
+        elif inp.get('kind') == 'slice' and 'case' in inp:
+            cases = [dict(inp['case'], id=0)]; do_log = do_export = False
         elif 'case' in inp:
             cases = [dict(inp['case'], id=0)]; do_export = False
     if do_log:
@@ -829,12 +917,16 @@ def run(ctx):
                 cases.append({'graph': g, 'sampled': sampled, 'ns': ns, 'times': rest[0] if rest else None, 'Ne': Ne, 'pts': pts,
                               'tag': 'native:' + nm, 'maxd': len(sampled), 'native_ops': ops, 'id': len(cases)})
         load_yaml_graphs(cases)
-        log_phase(ctx, cases, model_wiring, pnu, bad_frozen)
+        origs = log_phase(ctx, cases, model_wiring, pnu, bad_frozen)
+    if do_slice and cases is not None:
+        slice_phase(ctx, cases, origs if do_log else {})
     if do_export:
         export_phase(ctx, progs, pulses_bad, pnu)
 
 def log_phase(ctx, cases, wiring, pnu, bad_frozen):
+    lap(ctx, 'translators + generation')
     res = impl_chunks('log', [strip(c) for c in cases])
+    lap(ctx, 'impl log runs (%d cases)' % len(cases))
     byid = {r['id']: r for r in res}
     exprs = []; refusals = []; meta = {}; frz_exprs = []
     infos = {}
@@ -870,7 +962,8 @@ def log_phase(ctx, cases, wiring, pnu, bad_frozen):
                     continue
                 except KeyError as e:
                     pass
-            ctx.violation('from_demes raised %s on a generated graph' % r['error'][:200], data={'kind': 'log', 'case': strip(c), 'impl': r.get('tb')})
+            ctx.violation('from_demes raised %s on a generated graph' % r['error'][:200], data={'kind': 'log', 'case': strip(c), 'impl': r.get('tb')},
+                          key='from_demes-raises:' + error_class(r['error']))       # groups further inputs, not a known finding
             continue
         for x in r['calls']:
             ctx.count('call ' + x['fn'])
@@ -885,6 +978,25 @@ def log_phase(ctx, cases, wiring, pnu, bad_frozen):
         if r['fs']['pop_ids'] != list(c['sampled']) and not info['ancient']:
             ctx.violation('spectrum labels %r differ from the requested sampled demes %r' % (r['fs']['pop_ids'], c['sampled']),
                           data={'kind': 'log', 'case': strip(c)})
+        # the frozen branch of an ancient sample carries the size its parent had at the sampling time
+        if info['ancient'] and 'final' in r and 'orig' in r:
+            ends_ = {d['name']: d['end_time'] for d in r['orig']['demes']}
+            tms_ = c['times'] if c['times'] is not None else [ends_[s_] for s_ in c['sampled']]
+            fsz_ = {d['name']: d['epochs'][0]['start_size'] for d in r['final']['demes']}
+            for s_, tt in zip(c['sampled'], tms_):
+                nm = frozen_name(s_, tt)
+                if tt - info['tmin'] > 0 and nm in fsz_:
+                    want = resolved_size_at(r['orig'], s_, tt)
+                    okf = want is not None and abs(fsz_[nm] - want) <= 1e-12 * max(abs(want), abs(fsz_[nm]))
+                    ctx.obligation('case %d: the frozen branch %s has the size of %s at the sampling time' % (c['id'], nm, s_), okf, 'predicate',
+                                   '' if okf else 'branch size %r, deme size at %r: %r' % (fsz_[nm], tt, want))
+                    if not okf:
+                        ctx.violation('the frozen branch of the ancient sample %s@%r has size %r, the deme has size %r at that time'
+                                      % (s_, tt, fsz_[nm], want), data={'kind': 'log', 'case': strip(c)}, key='augment:frozen-branch-size-differs-from-parent')
+        if info['slice_cut']:
+            for fn_, pos_, follows_ in info['slice_cut']:
+                ctx.count('all-ancient: %s epoch cut %s, ends before the present' % (fn_, pos_))
+                REGIME.add((fn_, pos_)); REGIME.add(('follow', follows_)); REGIME.add(('demes', min(sum(1 for d_ in r['orig']['demes'] if d_['start_time'] > info['tmin'] >= d_['end_time']), 3)))
         ok_neutral = neutral_args_ok(r['calls'])
         ctx.obligation('case %d: every call is neutral (gamma=0, h=0.5, theta0=1, initial_t=0)' % c['id'], ok_neutral, 'correspondence')
         # conclusion of frozen_flags_wired on the real calls
@@ -910,13 +1022,15 @@ def log_phase(ctx, cases, wiring, pnu, bad_frozen):
         exprs.append((c['id'], ex)); meta[c['id']] = (c, r)
         if info['ancient']:
             frz_exprs.append((c['id'], '(%s, %s)' % ids['__std__']))
-    results = ctx.coq_cases('log', HEADER, exprs, '(check_prog %s)' % q(TOL), 'tol 1e-12 relative per argument', shard=ctx.pick(3, 12), timeout=1500)
+    results = ctx.coq_cases('log', HEADER, exprs, '(check_prog %s)' % q(TOL), 'tol 1e-12 relative per argument', shard=ctx.pick(6, 12), timeout=1500)
+    lap(ctx, 'coq log correspondence (%d cases)' % len(exprs))
     ref_results = ctx.coq_cases('refuse', HEADER, refusals, 'check_refusal', 'exact', shard=4) if refusals else {}
     if frz_exprs:
-        fres = ctx.coq_cases('frozen', HEADER, frz_exprs, '(fun c => (frozen_ok (snd c) (fst c), 0%Z))', 'exact', shard=ctx.pick(3, 12))
+        fres = ctx.coq_cases('frozen', HEADER, frz_exprs, '(fun c => (frozen_ok (snd c) (fst c), 0%Z))', 'exact', shard=ctx.pick(8, 12))
         for cid, _ in frz_exprs:
             ok = cid in fres and fres[cid][0]
             ctx.obligation('log case %d: conclusion of frozen_flags_wired on the model program (identity wiring, Q instance)' % cid, ok, 'correspondence')
+    lap(ctx, 'coq frozen-flag conclusions')
     mismatch = {}
     for cid, ex in exprs:
         c, r = meta[cid]
@@ -961,6 +1075,7 @@ def log_phase(ctx, cases, wiring, pnu, bad_frozen):
         plan[c['id']] = jobs
         ncases.append({'id': c['id'], 'jobs': [j for _, j, _, _ in jobs]})
     nres = impl_chunks('numeric', ncases, size=20)
+    lap(ctx, 'impl numeric jobs (%d cases, %d jobs)' % (len(ncases), sum(len(x['jobs']) for x in ncases)))
     nby = {r['id']: r for r in nres}
     worst = 0.0
     failing = set()
@@ -996,6 +1111,9 @@ def log_phase(ctx, cases, wiring, pnu, bad_frozen):
                     known = key
                 elif kind == 'native' and c.get('Ne') is not None and not pnu:
                     known = 'compute_sfs:initial-phi-ignores-root-size'
+                elif infos[c['id']]['slice_class']:
+                    # not a known finding: groups the further failing inputs of one input class under the first one
+                    known = 'all-samples-ancient:%s:%s' % (infos[c['id']]['slice_class'], kind)
             o = ctx.obligation('case %d (%s) %s: spectrum unchanged' % (c['id'], c['tag'], label), ok, 'predicate',
                                '' if ok else 'relative deviation %r' % (e,))
             if not ok:
@@ -1027,6 +1145,164 @@ def log_phase(ctx, cases, wiring, pnu, bad_frozen):
     if bad_frozen and not ctx.replay and not any(byid[c['id']].get('_frozen_bad') for c in cases):
         ctx.violation('frozen-flag wiring of _integrate_phi is not the identity for d in %r but no generated case exhibits it' % bad_frozen,
                       no_input=True, broken='generated obligation C16_ob_frozen%d' % bad_frozen[0])
+    if not ctx.replay:
+        need = [(fn_, pos_) for fn_ in ('exponential', 'linear') for pos_ in ('inside', 'at its end')] + \
+               [('follow', x) for x in ('epoch', 'extinct', 'split')] + [('demes', k) for k in (1, 2, 3)]
+        for x in need:
+            ctx.obligation('generator coverage: every sample ancient and the slice cuts a non-constant epoch that ends before the present - %s %s'
+                           % x, x in REGIME, 'harness', '' if x in REGIME else 'no generated case reached this part of the regime')
+    lap(ctx, 'log phase rest')
+    return {c['id']: byid[c['id']]['orig'] for c in cases if 'orig' in byid[c['id']]}
+
+# ---------------------------------------------------------------------------------------------------------------
+# DemesUtil.slice on its own: the real sliced graph against the model's [slice] (in Coq) and against `demes`' own
+# Deme.size_at / migration intervals of the input graph (predicate of C16_slice_preserves_size_functions on the real code)
+
+SLICE_TOL = 1e-12
+
+def slice_times(orig, rng, tmin, k, everything):
+    """slice times for one resolved graph, by class: the case's own slice time; A strictly inside a non-constant epoch that
+    ends before the present; B exactly at the end of such an epoch; C inside a non-constant epoch that runs to the present;
+    D at another epoch boundary / deme end; E at a pulse time or migration boundary; F at a deme's start time"""
+    cls = {x: set() for x in 'ABCDEF'}
+    for d in orig['demes']:
+        if d['start_time'] != INF:
+            cls['F'].add(d['start_time'])
+        for e in d['epochs']:
+            st, en = e['start_time'], e['end_time']
+            if e['size_function'] != 'constant' and st != INF:
+                if en > 0:
+                    cls['A'].add((st + en) / 2); cls['B'].add(en)
+                else:
+                    cls['C'].add((st + en) / 2)
+            elif en > 0:
+                cls['D'].add(en)
+    for p in orig['pulses']:
+        cls['E'].add(p['time'])
+    for m in orig['migrations']:
+        for x in (m['start_time'], m['end_time']):
+            if x != INF and x > 0:
+                cls['E'].add(x)
+    out = [('own', tmin)] if tmin > 0 else []
+    rest = [x for x in 'CDEF' if cls[x]]
+    pick = ['A', 'B'] + (rest if everything else ([rest[k % len(rest)]] if rest else []))
+    for x in pick:
+        if cls[x]:
+            t = rng.choice(sorted(cls[x]))
+            if t > 0 and t not in [u for _, u in out]:
+                out.append((x, t))
+    return out
+
+def slice_predicate(orig, one):
+    """[(category, what, detail)] : where the real sliced graph does not keep the demography more ancient than t, shifted by t"""
+    t = one['t']; sl = one['sliced']; bad = []
+    close = lambda a, b: a == b or (a is not None and b is not None and abs(a - b) <= SLICE_TOL * max(abs(a), abs(b)))
+    want = [d for d in orig['demes'] if d['start_time'] > t]
+    if [d['name'] for d in sl['demes']] != [d['name'] for d in want]:
+        bad.append(('demes', 'the sliced graph has demes %r, expected those older than the slice time: %r'
+                    % ([d['name'] for d in sl['demes']], [d['name'] for d in want]), None))
+        return bad
+    for d, w in zip(sl['demes'], want):
+        if not close(d['start_time'], w['start_time'] - t) or not close(d['end_time'], max(0.0, w['end_time'] - t)):
+            bad.append(('lifetime', 'deme %s lives over [%r, %r) in the sliced graph, expected [%r, %r)'
+                        % (d['name'], d['start_time'], d['end_time'], w['start_time'] - t, max(0.0, w['end_time'] - t)), None))
+    for name, u, got, ref in one['size_probes']:
+        if not close(got, ref):
+            bad.append(('size', 'deme %s has size %r at time %r of the graph sliced at %r, but size %r at time %r of the original graph'
+                        % (name, got, u, t, ref, u + t), {'deme': name, 'u': u, 'sliced_size': got, 'original_size': ref}))
+    for s_, d_, u, got, ref in one['mig_probes']:
+        if not close(got, ref):
+            bad.append(('migration-rate', 'migration %s -> %s has rate %r at time %r of the graph sliced at %r, but %r at time %r of the original graph'
+                        % (s_, d_, got, u, t, ref, u + t), {'source': s_, 'dest': d_, 'u': u}))
+    wp = [p for p in orig['pulses'] if p['time'] > t]
+    gp = sl['pulses']
+    if len(wp) != len(gp) or any(p['sources'] != q_['sources'] or p['dest'] != q_['dest'] or not close(p['time'] - t, q_['time'])
+                                 or p['proportions'] != q_['proportions'] for p, q_ in zip(wp, gp)):
+        bad.append(('pulses', 'the pulses of the sliced graph are %r, expected %r shifted by %r' % (gp, wp, t), None))
+    return bad
+
+def slice_case_coq(orig, one):
+    ids = {d['name']: i for i, d in enumerate(orig['demes'])}
+    sp = '[' + '; '.join('(%d%%nat, %s, %s)' % (ids[n], q(u), q(v)) for n, u, v, _ in one['size_probes']) + ']'
+    mp = '[' + '; '.join('(%d%%nat, %d%%nat, %s, %s)' % (ids[a], ids[bb], q(u), q(v)) for a, bb, u, v, _ in one['mig_probes']) + ']'
+    return '(%s, %s, %s, (%s : list (nat * Q * Q)), (%s : list (nat * nat * Q * Q)))' % (
+        graph_coq(orig, ids), q(one['t']), graph_coq(one['sliced'], ids), sp, mp)
+
+def slice_phase(ctx, cases, origs):
+    """cases: log cases (graph | yaml, tmin); origs: {case id: resolved graph} where known"""
+    import random
+    rng = random.Random('C16-slice-times-%d' % ctx.seed)
+    jobs = []
+    for c in cases:
+        if c.get('slice_ts') is not None:
+            ts = [('replay', t) for t in c['slice_ts']]
+        else:
+            orig = origs.get(c['id'])
+            if orig is None:
+                continue
+            ends = {d['name']: d['end_time'] for d in orig['demes']}
+            times = c['times'] if c.get('times') is not None else [ends.get(s_, 0.0) for s_ in c['sampled']]
+            ts = slice_times(orig, rng, min(times) if times else 0.0, c['id'], not ctx.quick or c['tag'].split(':')[0] in ('slice-family', 'boundary'))
+        if not ts:
+            continue
+        j = {'id': c['id'], 'ts': [t for _, t in ts], '_cls': [x for x, _ in ts], '_tag': c['tag']}
+        if c.get('yaml'):
+            j['yaml'] = c['yaml']
+        else:
+            j['graph'] = c['graph']
+        jobs.append(j)
+    res = impl_chunks('slice', [{k: v for k, v in j.items() if not k.startswith('_')} for j in jobs], size=60)
+    byid = {r['id']: r for r in res}
+    lap(ctx, 'impl slice runs (%d graphs, %d slices)' % (len(jobs), sum(len(j['ts']) for j in jobs)))
+    exprs = []; meta = {}
+    failing = set()
+    for j in jobs:
+        r = byid[j['id']]
+        data0 = {'kind': 'slice', 'case': {k: v for k, v in j.items() if k in ('graph', 'yaml')}, 'graph_yaml': r.get('yaml')}
+        data0['case']['tag'] = j['_tag']; data0['case']['sampled'] = []; data0['case']['times'] = None
+        if 'error' in r:
+            ctx.obligation('slice job %d ran' % j['id'], False, 'harness', r['error'])
+            continue
+        for cls, one in zip(j['_cls'], r['slices']):
+            sid = j['id'] * 16 + len([1 for k in meta if k // 16 == j['id']])
+            ctx.count('slice time class ' + cls)
+            data = json.loads(json.dumps(data0)); data['case']['slice_ts'] = [one['t']]; data['slice_time'] = one['t']
+            if 'error' in one:
+                ctx.obligation('slice %d (%s, t=%r): DemesUtil.slice runs' % (sid, j['_tag'], one['t']), False, 'predicate', one['error'])
+                ctx.violation('DemesUtil.slice(g, %r) raises %s on a resolved graph' % (one['t'], one['error'][:160]), data=dict(data, impl=one.get('tb')),
+                              key='DemesUtil.slice:raises-%s' % one['error'].split(':')[0])
+                failing.add(sid); meta[sid] = (j, one, data)
+                continue
+            cut = [e for d in r['orig']['demes'] if d['start_time'] > one['t'] for e in d['epochs']
+                   if e['start_time'] > one['t'] >= e['end_time'] and e['size_function'] != 'constant']
+            if cut:
+                ctx.count('slice cuts a non-constant epoch')
+                if any(e['end_time'] > 0 for e in cut):
+                    ctx.count('slice cuts a non-constant epoch that ends before the present')
+                if any(e['end_time'] == one['t'] for e in cut):
+                    ctx.count('slice exactly at the end of a non-constant epoch')
+            bad = slice_predicate(r['orig'], one)
+            ctx.obligation('slice %d (%s, t=%r): the sliced graph is the demography older than t shifted by t (sizes by Deme.size_at, '
+                           'lifetimes, migration rates, pulses)' % (sid, j['_tag'], one['t']), not bad, 'predicate', bad[0][1] if bad else '')
+            meta[sid] = (j, one, data)
+            if bad:
+                failing.add(sid)
+                ctx.violation('DemesUtil.slice does not keep the demography at the slice time: %s' % bad[0][1],
+                              data=dict(data, deviations=[b_[2] or b_[1] for b_ in bad[:6]]),
+                              key='DemesUtil.slice:%s-not-preserved' % bad[0][0])      # groups further inputs, not a known finding
+            exprs.append((sid, slice_case_coq(r['orig'], one)))
+    results = ctx.coq_cases('slice', HEADER, exprs, '(check_slice %s)' % q(TOL), 'tol 1e-12 relative per number', shard=ctx.pick(12, 24), timeout=1500)
+    lap(ctx, 'coq slice correspondence (%d slices)' % len(exprs))
+    for sid, _ in exprs:
+        j, one, data = meta[sid]
+        rr = results.get(sid)
+        ok = rr is not None and rr[0]
+        ctx.obligation('slice %d (%s, t=%r): real sliced graph = model slice; conclusion of slice_preserves_size_functions / '
+                       '_migration_rates on the Q instance' % (sid, j['_tag'], one['t']), ok, 'correspondence',
+                       '' if ok else 'coq: %r (1000: structure; 2000+k / 3000+k: probe k undefined)' % (rr,))
+        if not ok and sid not in failing:
+            ctx.violation('the graph returned by DemesUtil.slice(g, %r) differs from the model (coq %r); sizes and rates probed on it agree '
+                          'with the original graph' % (one['t'], rr), data=data, no_input=True, broken='slice correspondence %d' % sid)
 
 # ---------------------------------------------------------------------------------------------------------------
 # export round trip
@@ -1184,7 +1460,9 @@ def export_phase(ctx, progs, pulses_bad, pnu):
     for p in progs:
         if p.get('ops') is not None:
             p['ops_norm'] = G.normalize_program(p['ops'])
+    lap(ctx, 'export generation')
     res = impl_chunks('export', progs, size=30)
+    lap(ctx, 'impl export runs (%d programs)' % len(progs))
     byid = {r['id']: r for r in res}
     for p in progs:
         r = byid[p['id']]
